@@ -524,3 +524,44 @@ def util_data_vectors(blurred, image, noise_slim, w_data, to_pix_0, weights_0, l
     if not close(got, want, scale=scale):
         return "data_vector_via_w_tilde_data_imaging_from != M^T w_data: got %r want %r" % (got, want)
     return None
+
+
+def _gen_big_mesh(rng, tier):
+    # index-width escalation: a mesh of more than 2**15 source pixels (182 x 182 = 33 124) under a handful of data pixels, so that the
+    # pure-Python kernels stay fast; the data pixels map to source pixels on both sides of index 32 768
+    for _ in range(gens.budget(tier, 3, 12)):
+        n = 4
+        src = np.array([[rng.uniform(-0.99, -0.8), rng.uniform(-0.99, 0.99)] for _ in range(2)]        # bottom rows: the highest indices
+                       + [[rng.uniform(0.0, 0.99), rng.uniform(-0.99, 0.99)]] + [[-0.995, 0.995]])
+        yield {"source": src, "w_data": np.array([rng.choice([1.0, -2.0, 0.5, 3.0]) for _ in range(n)])}
+
+
+@bounded("C04", "w-tilde-data-vector-mesh-beyond-32768", gen=_gen_big_mesh)
+def w_tilde_data_vector_big_mesh(source, w_data):
+    """C04: 'the mapping-matrix formalism and the w-tilde formalism return the same data vector' for every mesh size -- a real
+    MapperRectangular on a 182 x 182 mesh (33 124 parameters) under a 2 x 2 block of data pixels: the sparse tables the w-tilde formalism
+    works from (mapper.unique_mappings) put every data pixel's weight on the same parameter as the mapping matrix does, and
+    data_vector_via_w_tilde_data_imaging_from on those tables equals M^T w; bound: 3 (12) seeded placements."""
+    import autoarray as aa
+    from autoarray.inversion.inversion.imaging import inversion_imaging_util as u
+    mask = np.ones((4, 4), dtype=bool)
+    mask[1:3, 1:3] = False
+    mk = aa.Mask2D(mask=mask, pixel_scales=(1.0, 1.0))
+    over = aa.OverSamplerUniform(mask=mk, sub_size=1)
+    mg = aa.mesh.Rectangular(shape=(182, 182)).mapper_grids_from(mask=mk, source_plane_data_grid=aa.Grid2DIrregular(values=source.copy()),
+                                                                 border_relocator=None)
+    mp = aa.Mapper(mapper_grids=mg, over_sampler=over, regularization=None)
+    M = np.asarray(mp.mapping_matrix, dtype=float)
+    if M.shape != (4, 33124) or not (M.max(axis=1) > 0).all() or int(np.argmax(M, axis=1).max()) < 32768:
+        return None                                   # the placement did not reach beyond index 32 768: nothing to compare
+    um = mp.unique_mappings
+    got = np.asarray(u.data_vector_via_w_tilde_data_imaging_from(
+        w_tilde_data=w_data.copy(), data_to_pix_unique=np.asarray(um.data_to_pix_unique), data_weights=np.asarray(um.data_weights),
+        pix_lengths=np.asarray(um.pix_lengths), pix_pixels=int(mp.params)), dtype=float)
+    want = M.T @ w_data
+    if got.shape != want.shape or not np.allclose(got, want, rtol=1e-12, atol=1e-12):
+        bad = np.argwhere(~np.isclose(got, want, rtol=1e-12, atol=1e-12)).reshape(-1)[:4].tolist()
+        return ("w-tilde data vector on the unique-mapping tables of a 182 x 182 mesh differs from M^T w at parameters %r: %r vs %r "
+                "(tables map the data pixels to %r, the mapping matrix to %r)" % (
+                    bad, got[bad].tolist(), want[bad].tolist(), np.asarray(um.data_to_pix_unique)[:, 0].tolist(), np.argmax(M, axis=1).tolist()))
+    return None
